@@ -20,6 +20,11 @@ impl Rng {
     pub fn range(&mut self, lo: f64, hi: f64) -> f64 { lo + (hi - lo) * self.unit() }
 }
 
+/// when set, struct arguments are always forward images of 8-bit colours (no random boxes): the domain on which the
+/// exact-real model is meaningful without side conditions (used by the float-gap measurement)
+pub static VALID_ONLY: std::sync::atomic::AtomicBool = std::sync::atomic::AtomicBool::new(false);
+fn boxed(rng: &mut Rng) -> bool { let b = rng.below(3) == 0; b && !VALID_ONLY.load(std::sync::atomic::Ordering::Relaxed) }
+
 pub const LATTICE: usize = 17 * 17 * 17;
 pub fn lattice_level(i: usize) -> u8 { if i == 16 { 255 } else { (i * 16) as u8 } }
 
@@ -42,6 +47,7 @@ fn special_f64(rng: &mut Rng) -> f64 {
 }
 
 fn xyz_of(rng: &mut Rng, i: usize) -> Xyz {
+    if VALID_ONLY.load(std::sync::atomic::Ordering::Relaxed) { return Xyz::from_rgb(rgb_at(i, rng), Kind::D65); }
     match rng.below(10) {
         0 => Xyz { x: rng.range(0.0, 1.1), y: rng.range(0.0, 1.1), z: rng.range(0.0, 1.1) },
         1 => Xyz { x: rng.range(-0.05, 0.05), y: rng.range(-0.05, 0.05), z: rng.range(-0.05, 0.05) },
@@ -58,7 +64,7 @@ fn triple(rng: &mut Rng, lo: [f64; 3], hi: [f64; 3]) -> (f64, f64, f64) {
 
 macro_rules! from_xyz_or_box {
     ($ty:ident, $rng:expr, $i:expr, $lo:expr, $hi:expr, $a:ident, $b:ident, $c:ident) => {{
-        if $rng.below(3) == 0 {
+        if boxed($rng) {
             let (p, q, r) = triple($rng, $lo, $hi);
             $ty { $a: p, $b: q, $c: r }.toks()
         } else {
@@ -68,7 +74,7 @@ macro_rules! from_xyz_or_box {
 }
 macro_rules! from_rgb_or_box {
     ($ty:ident, $rng:expr, $i:expr, $lo:expr, $hi:expr, $a:ident, $b:ident, $c:ident) => {{
-        if $rng.below(3) == 0 {
+        if boxed($rng) {
             let (p, q, r) = triple($rng, $lo, $hi);
             $ty { $a: p, $b: q, $c: r }.toks()
         } else {
@@ -148,32 +154,32 @@ pub fn gen_arg(ty: &str, fname: &str, i: usize, n: usize, rng: &mut Rng) -> Vec<
         }
         "Xyz" => xyz_of(rng, i).toks(),
         "Cymk" => {
-            if rng.below(3) == 0 {
+            if boxed(rng) {
                 Cymk { c: rng.range(-0.1, 1.1), m: rng.range(-0.1, 1.1), y: rng.range(-0.1, 1.1), k: if rng.below(8) == 0 { 1.0 } else { rng.range(-0.1, 1.1) } }.toks()
             } else { Cymk::from(rgb_at(i, rng)).toks() }
         }
         "Hsl" => {
-            if rng.below(3) == 0 {
+            if boxed(rng) {
                 // quarter-degree hues, whole percentages, plus the edges 360 / 0 / 100
                 let h = if rng.below(20) == 0 { 360.0 } else { rng.below(1440) as f64 / 4.0 };
                 Hsl { h, s: rng.below(101) as f64, l: rng.below(101) as f64 }.toks()
             } else { from_rgb_or_box!(Hsl, rng, i, [-10.0, -5.0, -5.0], [370.0, 105.0, 105.0], h, s, l) }
         }
         "Hsv" => {
-            if rng.below(3) == 0 {
+            if boxed(rng) {
                 let h = if rng.below(20) == 0 { 360.0 } else { rng.below(1440) as f64 / 4.0 };
                 Hsv { h, s: rng.below(101) as f64, v: rng.below(101) as f64 }.toks()
             } else { from_rgb_or_box!(Hsv, rng, i, [-10.0, -5.0, -5.0], [370.0, 105.0, 105.0], h, s, v) }
         }
         "Hwb" => {
-            if rng.below(3) == 0 {
+            if boxed(rng) {
                 let w = rng.below(101); let b = rng.below(101 - w);
                 Hwb { h: rng.below(1440) as f64 / 4.0, w: w as f64, b: b as f64 }.toks()
             } else { from_rgb_or_box!(Hwb, rng, i, [-10.0, -5.0, -5.0], [370.0, 105.0, 105.0], h, w, b) }
         }
         "Yuv" => from_rgb_or_box!(Yuv, rng, i, [-0.1, -0.5, -0.7], [1.1, 0.5, 0.7], y, u, v),
         "Ycbcr" => {
-            if rng.below(2) == 0 { Ycbcr { y: rng.below(256) as u8, cb: rng.below(256) as u8, cr: rng.below(256) as u8 }.toks() }
+            if rng.below(2) == 0 && !VALID_ONLY.load(std::sync::atomic::Ordering::Relaxed) { Ycbcr { y: rng.below(256) as u8, cb: rng.below(256) as u8, cr: rng.below(256) as u8 }.toks() }
             else { Ycbcr::from(rgb_at(i, rng)).toks() }
         }
         "Srgb" => from_xyz_or_box!(Srgb, rng, i, [-0.1, -0.1, -0.1], [1.1, 1.1, 1.1], r, g, b),
